@@ -139,6 +139,19 @@ def byteSeqBody : List Nat → Option (List Nat × List Nat)
       | none => none
       | some (a, rest) => some (c :: a, rest)
 
+/-- `isBase64`: the text with its trailing '=' removed. -/
+def stripPad (s : List Nat) : List Nat := (s.reverse.dropWhile (fun b => b == 61)).reverse
+
+/-- Go `isBase64(s)`: decodable base64 (RFC 4648 §4), missing padding tolerated. -/
+def isBase64 (s : List Nat) : Bool :=
+  let d := stripPad s
+  let pad := s.length - d.length
+  if List.elem 61 d then false
+  else if d.length % 4 == 0 then pad == 0
+  else if d.length % 4 == 2 then decide (pad ≤ 2)
+  else if d.length % 4 == 3 then decide (pad ≤ 1)
+  else false
+
 def consumeByteSequence (s : List Nat) : Option (List Nat × List Nat) :=
   match s with
   | [] => none
@@ -146,7 +159,7 @@ def consumeByteSequence (s : List Nat) : Option (List Nat × List Nat) :=
     if c != 58 then none
     else match byteSeqBody r with
       | none => none
-      | some (a, rest) => some (58 :: a, rest)
+      | some (a, rest) => if !isBase64 a.dropLast then none else some (58 :: a, rest)
 
 def consumeBoolean (s : List Nat) : Option (List Nat × List Nat) :=
   match s with
